@@ -18,8 +18,9 @@
 (*     and placeholder spellings, different treatment of invalid names)    *)
 (*     and checks on every description that both satisfy the law, under    *)
 (*     both readings of a short names list, and that installing a result   *)
-(*     and asking again returns it (RefOK, RefStable): the clauses are     *)
-(*     jointly satisfiable and do not single out one algorithm;            *)
+(*     and asking again returns it, and that obviously wrong answers are   *)
+(*     refused (RefLaw, RefStable, Refuses): the clauses are jointly       *)
+(*     satisfiable, not vacuous and do not single out one algorithm;       *)
 (*  3. prints each description as a CASE line (Emit) -- these are the      *)
 (*     fonts the harness builds with the real library; the recorded        *)
 (*     answers of the real code are judged by NamesTrace.tla.              *)
